@@ -76,6 +76,11 @@ CHECKS = {
         text='Exploration with CPython\'s parser as reader of the displayed text. Every depth-2 expression tree (form x hole x inner form), every depth-3 operator chain over all operand positions, every literal leaf kind, re.compile calls and random deeper trees are rendered by the real colouriser under unlimited, inline and small linelen/maxlines settings; complete outputs must read back as the same expression (wrap markers removed), incomplete ones must end in the ellipsis marker. A failing expression is attributed to a known mechanism only if rewriting that syntactic pattern away makes it pass and putting it back makes it fail; anything else is a new violation.',
         note='Trusts ast.parse/ast.unparse of CPython 3.12 and the normaliser vf/ref/exprnorm.py (quotes, number formatting, set([..]), regex re-spelling compared by parse tree). Five defects are listed as known findings by mechanism.',
         ref='4/C15'),
+    'C16': dict(
+        technique='generator with ground truth (problems planted at known physical lines) driving the real driver.main in-process; oracle over the recorded message log (M-MSG wrapper around System.msg as shadow counter), the printed lines and the exit status; metamorphic shift-by-k relation between two runs of the same module',
+        text='Exploration. Generated modules carry unresolvable cross-references, markup errors (fatal and non-fatal), unknown fields, documented non-existent parameters, unsplittable consolidated fields and unrenderable displayed constants at known lines, in module/class/function/method/attribute docstrings (also inherited through a subclass in a second file), in four docformats and seven physical layouts. Every message that names a planted problem must carry the planting file and an admissible line; the same module shifted by k lines must shift each report by k; System.violations must equal the number of counted messages and what is printed; the exit status is compared with the generator\'s ground truth (3 iff -W and something was reported, else 2 iff something unparsable was planted, else 0).',
+        note='Docstrings with line continuations or \\n escapes are outside the generator (documented limitation of the line approximation). Messages the generator did not plant (duplicate parameter documentation, the newfield artefact of consolidated fields) are counted, not judged. One defect pinned by an existing doctest is a known finding.',
+        ref='4/C16'),
     'C17': dict(
         technique='round trip with two independent readers (pydoctor SphinxInventory, Sphinx InventoryFile) against an independent page-layout reference, plus structured byte/line fuzzing of SphinxInventory.update with metamorphic "other lines unaffected / dropped lines reported" oracles',
         text='Exploration. Written inventories of a fixture (non-ASCII, nested, hidden, duplicate and root-named objects), generated projects and real packages are loaded by both readers and compared entry by entry with the visible documented objects and an independent statement of the URL layout. 160k (quick) / 2M (thorough) structured fuzz inputs and 32k / 400k single-line corruptions of valid inventories are fed to the real update(): it must not raise, a previously loaded inventory and the other lines must resolve unchanged, and a line that disappears must have been reported.',
